@@ -424,7 +424,9 @@ impl WorkerHandle {
         if self.child.is_some() {
             return Ok(());
         }
-        let exe = std::env::current_exe().map_err(|e| e.to_string())?;
+        // /proc/self/exe keeps working when the binary on disk is replaced by a rebuild while a run is in progress
+        let proc_exe = std::path::PathBuf::from("/proc/self/exe");
+        let exe = if proc_exe.exists() { proc_exe } else { std::env::current_exe().map_err(|e| e.to_string())? };
         let mut c = Command::new(exe)
             .arg("worker")
             .arg(&self.id)
